@@ -49,11 +49,16 @@ class Contract:
     def short(self) -> str:
         return self.label or self.target.split(":")[1]
 
+    @property
+    def key(self) -> str:
+        return self.target.split(":")[0] + ":" + self.short
+
 
 class Registry:
     def __init__(self, repo: Repo):
         self.repo = repo
         self.contracts: dict[str, Contract] = {}
+        self.all: dict[str, Contract] = {}
         self.classes: dict[str, dict] = {}
         self.ghost_funcs: dict[str, object] = {}
         self.policies: dict[str, object] = {}
@@ -65,11 +70,16 @@ class Registry:
         self.known: dict[str, list] = {}                # obligation base name -> [(id, region expr)]
         self.ghost_funcs["inv"] = self._inv
         self.ghost_funcs["is_none"] = lambda I, v: I.identical(v, None)
+        self.ghost_funcs["cls_of"] = lambda I, o: o.cls
         self.hooks: dict[str, object] = {}
 
     # -- declaration API ---------------------------------------------------
-    def add_contract(self, c: Contract):
-        self.contracts[c.target] = c
+    def add_contract(self, c: Contract, callsite: bool = True):
+        """Register a contract.  `callsite=False`: a verification-only variant (same target,
+        different parameter domain) that call sites do not use."""
+        if callsite:
+            self.contracts[c.target] = c
+        self.all[c.key] = c
         return c
 
     def add_class(self, name: str, **spec):
